@@ -20,7 +20,7 @@ from common import Model, hx, exc_name
 
 logging.disable(logging.CRITICAL)
 
-LEAN_TARGETS = ["NfcVerif.Props.C14", "drv_c14"]
+LEAN_TARGETS = ["NfcVerif.Props.C14", "drv_c14", "NfcVerif.Props.TablesFrame"]
 PARTS = ["crcuse"]   # use sites of the CRC helpers in the drivers (harness/props/c14_crcuse.py)
 
 THEOREMS = [
@@ -141,6 +141,7 @@ def outcome(fn):
 
 
 def run(ck):
+    ck.tables("TablesFrame")   # T-tie for constants: source tables re-extracted, bridge theorems re-proved
     import nfc.clf.device
     import nfc.clf.rcs380
     rng = ck.rng
